@@ -54,6 +54,10 @@ type handler1 struct {
 	pktBuffer        []snPkts.Packet
 	group            *errgroup.Group
 	transactions     *transactions.TransactionStore
+	// Transactions initiated by the MQTT broker. The broker and the client
+	// choose their MsgIDs independently => they must be stored separately
+	// from the transactions initiated by the client (h.transactions).
+	brokerTransactions *transactions.TransactionStore
 	// The topicID sequence has wrapped: all TopicIDs have been used.
 	topicIDsExhausted bool
 	// Serializes sending to the client (incl. pktBuffer manipulation) with
@@ -120,6 +124,8 @@ func newHandler(cfg *handlerConfig, predefinedTopics topics.PredefinedTopics,
 		predefinedTopics: predefinedTopics,
 		topicID:          util.NewIDSequence(snPkts.MinTopicAlias, snPkts.MaxTopicAlias),
 		transactions:     transactions.NewTransactionStore(),
+
+		brokerTransactions: transactions.NewTransactionStore(),
 	}
 
 	return h
@@ -320,7 +326,7 @@ func (h *handler1) handleBrokerPublish(ctx context.Context, mqPublish *mqPkts.Pu
 		// an "almost surely available" MsgID :(
 		found := false
 		for i := snPkts.MaxPacketID; i >= snPkts.MinPacketID; i-- {
-			if _, ok := h.transactions.Get(i); !ok {
+			if _, ok := h.brokerTransactions.Get(i); !ok {
 				msgID = i
 				found = true
 				break
@@ -369,7 +375,7 @@ func (h *handler1) handleBrokerPublish(ctx context.Context, mqPublish *mqPkts.Pu
 		}
 	}
 
-	h.transactions.Store(msgID, transaction)
+	h.brokerTransactions.Store(msgID, transaction)
 	return transaction.ProceedSN(nextState, snPkt)
 }
 
@@ -444,7 +450,7 @@ func (h *handler1) handleMqtt(ctx context.Context, pkt mqPkts.ControlPacket) err
 
 	// MQTT broker PUBLISH QoS 2 transaction.
 	case *mqPkts.PubrelPacket:
-		transactionx, _ := h.transactions.Get(mqPkt.MessageID)
+		transactionx, _ := h.brokerTransactions.Get(mqPkt.MessageID)
 		transaction, ok := transactionx.(*brokerPublishQOS2Transaction)
 		if !ok {
 			h.log.Error("Unexpected transaction type %T for packet: %v", transactionx, mqPkt)
@@ -870,7 +876,7 @@ func (h *handler1) handleMqttSn(ctx context.Context, pkt snPkts.Packet) error {
 	// packet with an unregistered topic => the gateway initializes
 	// registration and the client must acknowledge it.
 	case *snPkts1.Regack:
-		transactionx, _ := h.transactions.Get(snPkt.MessageID())
+		transactionx, _ := h.brokerTransactions.Get(snPkt.MessageID())
 		if transaction, ok := transactionx.(transactionWithRegack); ok {
 			return transaction.Regack(snPkt)
 		}
@@ -879,7 +885,7 @@ func (h *handler1) handleMqttSn(ctx context.Context, pkt snPkts.Packet) error {
 
 	// MQTT broker PUBLISH QoS 1 transaction.
 	case *snPkts1.Puback:
-		transactionx, _ := h.transactions.Get(snPkt.MessageID())
+		transactionx, _ := h.brokerTransactions.Get(snPkt.MessageID())
 		if transaction, ok := transactionx.(*brokerPublishQOS1Transaction); ok {
 			return transaction.Puback(snPkt)
 		}
@@ -888,7 +894,7 @@ func (h *handler1) handleMqttSn(ctx context.Context, pkt snPkts.Packet) error {
 
 	// MQTT broker PUBLISH QoS 2 transaction.
 	case *snPkts1.Pubrec:
-		transactionx, _ := h.transactions.Get(snPkt.MessageID())
+		transactionx, _ := h.brokerTransactions.Get(snPkt.MessageID())
 		if transaction, ok := transactionx.(*brokerPublishQOS2Transaction); ok {
 			return transaction.Pubrec(snPkt)
 		}
@@ -897,7 +903,7 @@ func (h *handler1) handleMqttSn(ctx context.Context, pkt snPkts.Packet) error {
 
 	// MQTT broker PUBLISH QoS 2 transaction.
 	case *snPkts1.Pubcomp:
-		transactionx, _ := h.transactions.Get(snPkt.MessageID())
+		transactionx, _ := h.brokerTransactions.Get(snPkt.MessageID())
 		if transaction, ok := transactionx.(*brokerPublishQOS2Transaction); ok {
 			return transaction.Pubcomp(snPkt)
 		}
